@@ -1,5 +1,5 @@
 #!/bin/bash
 # Runs every stored independent seed against the check of the property it breaks
 # (scratch worktree, never /repo) and prints one line per seed.
-cd /verif
+cd "$(dirname "$0")/.."
 for d in seeded/*/; do id=$(basename $d); prop=$(python3 -c "import json;print(json.load(open('$d/meta.json'))['breaks_property'])"); lib/mutants.sh $prop $d/patch.diff | sed "s|^MUTANT [^:]*:|SEED $id ($prop):|" | cut -c1-170; done
